@@ -35,7 +35,7 @@ from ..engine.absint import Obj
 from ..engine.normalize import positional
 from ..engine.order import Atom, OrderInterp
 from ..engine.report import AnalysisError, Run
-from ..engine.resolver import FuncInfo, Program, walk_no_nested
+from ..engine.resolver import Program, walk_no_nested
 from ..engine.terms import Poly
 from ._c04_util import (
     STOPPED, LinInterp, StoreInterp, Sweep, compare_pairs, flip_strict, mirror, reach, splice, step_function, sweep_roles,
@@ -602,10 +602,22 @@ def structural_controls(prog: Program) -> list[tuple[str, str, str, str, str]]: 
     # 1. the lower edge of the zone counts as inside the zone
     ov = prog.func(f"{BOUNDS}:check_exclusion_bounds_overlap")
     edits: list[tuple[ast.AST, str]] = []
+    lower_alias: set[str] = set()  # locals that hold the zone's lower edge
+    for n in walk_no_nested(ov.node):
+        if isinstance(n, ast.Assign) and len(n.targets) == 1:
+            tv = list(zip(n.targets[0].elts, n.value.elts)) if isinstance(n.targets[0], ast.Tuple) and isinstance(
+                n.value, ast.Tuple) and len(n.targets[0].elts) == len(n.value.elts) else [(n.targets[0], n.value)]
+            for t, v in tv:
+                if isinstance(t, ast.Name) and isinstance(v, ast.Attribute) and v.attr == "lower":
+                    lower_alias.add(t.id)
+
+    def is_lower_edge(y: ast.AST) -> bool:
+        return (isinstance(y, ast.Attribute) and y.attr == "lower") or (isinstance(y, ast.Name) and y.id in lower_alias)
+
     for c in compares(list(ov.node.body)):
         for i, a, _op, b in compare_pairs(c):
             for x, y in ((a, b), (b, a)):
-                if _is_name(x, ov.params[0]) and isinstance(y, ast.Attribute) and y.attr == "lower" and not edits:
+                if _is_name(x, ov.params[0]) and is_lower_edge(y) and not edits:
                     t = flip_strict(c, i)
                     if t:
                         edits.append((c, t))
